@@ -47,7 +47,17 @@ fn spec(cfg: Config, sender: Side, depth: usize, devs: usize) -> SeqSpec {
             a.push((Op::TRead { side: recv, msg: Msg::Garbage(len, 0x5a), cap: Cap::Roomy }, true));
         }
         a.push((Op::TRead { side: recv, msg: Msg::Garbage(65536, 1), cap: Cap::Roomy }, true));
-        // the receiver's own outgoing message reflected back at it
+        // the receiver's own traffic: it may write in between (its sending nonce then differs from its
+        // receiving nonce), and its own message reflected back at it must be rejected
+        let own = transport_wires(e, recv);
+        if own.len() < 2 {
+            a.push((Op::TWrite { side: recv, plen: 2, cap: Cap::Roomy }, false));
+        }
+        if let Some(&w) = own.last() {
+            a.push((Op::TRead { side: recv, msg: Msg::Wire(recv, w), cap: Cap::Roomy }, true));
+        }
+        // a handshake message of this session delivered as a transport message
+        a.push((Op::TRead { side: recv, msg: Msg::Wire(sender, 0), cap: Cap::Roomy }, true));
         for v in 0..=K as u64 {
             if v != expected {
                 a.push((Op::SetRecvNonce { side: recv, n: v }, true));
@@ -82,7 +92,7 @@ fn configs() -> Vec<(Config, Side, String)> {
 
 pub fn run(tier: Tier) -> i32 {
     let ctx = Ctx::new("C05", tier, "model_checking");
-    let (depth, devs) = if ctx.quick() { (6, 3) } else { (8, 4) };
+    let (depth, devs) = if ctx.quick() { (7, 4) } else { (9, 5) };
     ctx.set_rule(format!(
         "explicit-state BFS over receiver/sender call sequences (write, deliver any written message, flipped/truncated/extended/garbage/oversize deliveries, undersized buffers, set_receiving_nonce) up to depth {depth} with at most {devs} deviations from in-order delivery; each transition executes the calls on real snow TransportStates and on the nonce/provenance model; states merged on (model, nonces, cipher keys)"
     ));
